@@ -121,6 +121,11 @@ impl WB {
             tapes: 0,
         }
     }
+    /// continue numbering after another builder's ids/tapes
+    pub fn bump(&mut self, n: u32) {
+        self.next += n;
+        self.tapes += n;
+    }
     pub fn id(&mut self) -> Id {
         self.next += 1;
         self.next
